@@ -12,12 +12,13 @@ from common import *
 import c03 as H3
 
 ID = 'C12'
-COQ_FILES = ['Model/Distance.v', 'Model/Paths.v', 'Proofs/DistanceBase.v', 'Proofs/DistanceFloyd.v', 'Proofs/Paths.v',
-             'Proofs/PathsFull.v', 'Properties/C12.v']
+COQ_FILES = ['Model/Distance.v', 'Model/Paths.v', 'Model/PathsExt.v', 'Proofs/DistanceBase.v', 'Proofs/DistanceFloyd.v', 'Proofs/Paths.v',
+             'Proofs/PathsFull.v', 'Proofs/DistanceHopsPath.v', 'Proofs/PathsNav.v', 'Properties/C12.v']
 THEOREMS = ['C12_floyd_path_inv', 'C12_retrieve_valid', 'C12_retrieve_empty_iff', 'C12_retrieve_shortest',
             'C12_retrieve_diag', 'C12_retrieve_transforms', 'C12_nav_walk_valid', 'C12_nav_fail_all_inf',
             'C12_nav_one_per_pair', 'C12_nav_returns', 'C12_nav_all_valid', 'C12_nav_success_ratio',
-            'C12_nav_step_greedy']
+            'C12_nav_step_greedy',
+            'C12_retrieve_nodup', 'C12_nav_path_greedy', 'C12_nav_hops_bound', 'C12_nav_returns_und', 'C12_nav_raises_iff_small']
 RULE = ('retrieve_shortest_path: all (s,t) on binary graphs (exhaustive all digraphs n<=3 quick / n<=4 thorough, all undirected '
         'n<=4 / n<=5) and on structured/random families n<=8 with tie-heavy lengths {1,2},{1,2,3}, lengths exact in binary64 where tolerance-based '
         'comparisons go wrong ({1..4}*2^-40; near-ties 2^20-1..2^21+3 as integers and scaled by 2^-20; inv on weights 2^28..2^30), inv transform (dyadic exact and '
@@ -129,11 +130,22 @@ def do_log(ctx, bct, W, B_):
 
 
 # ---------------------------------------------------------------- navigation
+def greedy_next(L, D, n, c, j):
+    """the step np.argmin takes from c towards j: the neighbour of c with the smallest (D[j][v], v); None at a dead end"""
+    nb = [v for v in range(n) if L[c][v] != 0]
+    if not nb:
+        return None
+    return min(nb, key=lambda v: (D[j][v], v))
+
+
 def do_nav(ctx, bct, L, D, mh, fam, B_):
     n = len(L)
     Ln, Dn = H3.npm(L), H3.npm(D)
     case = {'kind': 'navigation', 'L': L, 'D': D, 'max_hops': mh}
     ctx.count('nav:' + fam.split('+')[0]); ctx.count('nav:max_hops=%s' % mh); ctx.count('nav:n=%d' % n)
+    # fuel of the model = the PROVEN bounds: 2n for max_hops=None on a symmetric support (C12_nav_returns_und), max_hops+2 otherwise (C12_nav_returns)
+    fuel = 2 * n if mh is None else mh + 2
+    line = 'navx %d %s %s %s' % (fuel, enc_mat(L, enc_q), enc_mat(D, enc_q), ('1 %d' % mh) if mh is not None else '0')
     try:
         sr, PLb, PLw, PLd, paths = call(bct.navigation_wu, Ln.copy(), Dn.copy(), max_hops=mh, _t=5.0)
     except Timeout:
@@ -141,8 +153,16 @@ def do_nav(ctx, bct, L, D, mh, fam, B_):
         ctx.fail('navigation_wu:terminates', 'no result within 5 s on an input where termination is guaranteed (undirected or finite max_hops)', case)
         ctx.case(case, nontrivial=False)
         return
+    except ZeroDivisionError:
+        # n <= 1: `(len(inf_ixes) - n)/(n**2 - n)` on Python ints; the model's outcome must be NavRaises (C12_nav_raises_iff_small)
+        ctx.case(case, nontrivial=False)
+        ctx.count('nav:raises-ZeroDivisionError')
+        ctx.check(n <= 1, 'navigation_wu:returns', 'ZeroDivisionError with n=%d >= 2 nodes' % n, case)
+        B_.add(line, 'nav', case, 'ZeroDivisionError')
+        return
     succ = 0
     fn = 'navigation_wu'
+    ctx.check(n >= 2, fn + ':small-n', 'n=%d: returned sr=%r where n**2-n = 0 (expected the ZeroDivisionError of the int division)' % (n, sr), case)
     for i in range(n):
         for j in range(n):
             if i == j:
@@ -166,6 +186,11 @@ def do_nav(ctx, bct, L, D, mh, fam, B_):
                 what = ('failure-all-infinite', 'reported (%r,%r,%r): infinite in some but not all three' % (float(PLb[i, j]), float(PLw[i, j]), float(PLd[i, j])))
             elif (p[-1] == j) != (not infs[0]):
                 what = ('failure-all-infinite', 'path %s %s the target but reported hop count is %r' % (p, 'reaches' if p[-1] == j else 'does not reach', float(PLb[i, j])))
+            elif any(greedy_next(L, D, n, a, j) != b for a, b in zip(p, p[1:])):
+                # C12_nav_path_greedy: every step goes to THE neighbour closest to the target (first minimum)
+                a, b = next((a, b) for a, b in zip(p, p[1:]) if greedy_next(L, D, n, a, j) != b)
+                what = ('greedy-step', 'path %s: the step %d -> %d is not the greedy one (the neighbour of %d closest to %d, first minimum, is %s)'
+                        % (p, a, b, a, j, greedy_next(L, D, n, a, j)))
             elif not infs[0]:
                 succ += 1
                 if len(p) - 1 != PLb[i, j]:
@@ -174,19 +199,28 @@ def do_nav(ctx, bct, L, D, mh, fam, B_):
                     what = ('connection-length', 'path %s: summed L %s, reported %r' % (p, sum(L[a][b] for a, b in zip(p, p[1:])), float(PLw[i, j])))
                 elif sum(D[a][b] for a, b in zip(p, p[1:])) != PLd[i, j]:
                     what = ('nodal-distance', 'path %s: summed D %s, reported %r' % (p, sum(D[a][b] for a, b in zip(p, p[1:])), float(PLd[i, j])))
+                elif mh is not None and len(p) - 1 > mh + 1:
+                    # C12_nav_hops_bound: `pl_bin > max_hops` is tested before the increment -> at most max_hops + 1 hops
+                    what = ('max-hops-bound', 'successful path %s has %d hops with max_hops=%d (at most max_hops+1 can succeed)' % (p, len(p) - 1, mh))
+            else:
+                # a failed navigation stopped for one of the three reasons: dead end, back-step, beyond max_hops
+                c = p[-1]
+                nxt = greedy_next(L, D, n, c, j)
+                prev = p[-2] if len(p) > 1 else p[0]
+                if not (nxt is None or nxt == prev or (mh is not None and len(p) - 1 > mh)):
+                    what = ('failure-justified', 'path %s stops at %d although the greedy step to %d is neither a back-step nor beyond max_hops=%s' % (p, c, nxt, mh))
             if what:
                 ctx.fail(fn + ':' + what[0], 'pair (%d,%d): %s' % (i, j, what[1]), case)
-    want = F(succ, n * n - n)
-    ctx.check(abs(float(sr) - float(want)) <= 1e-12, fn + ':success-ratio', 'sr=%r, successes/(n^2-n)=%s' % (float(sr), want), case)
+    if n >= 2:
+        want = F(succ, n * n - n)
+        ctx.check(abs(float(sr) - float(want)) <= 1e-12, fn + ':success-ratio', 'sr=%r, successes/(n^2-n)=%s' % (float(sr), want), case)
     ctx.case(case, nontrivial=succ > 0)
-    fuel = 4 * n + 8 + (mh or 0)
-    B_.add('nav %d %s %s %s' % (fuel, enc_mat(L, enc_q), enc_mat(D, enc_q), ('1 %d' % mh) if mh is not None else '0'),
-           'nav', case, (float(sr), PLb, PLw, PLd, paths))
+    B_.add(line, 'nav', case, (float(sr), PLb, PLw, PLd, paths))
 
 
 def gen_D(ctx, n):
     r = ctx.nprng
-    kind = int(r.randint(0, 4))
+    kind = int(r.randint(0, 6))
     if kind == 0:      # many ties
         D = [[0 if i == j else int(r.randint(1, 3)) for j in range(n)] for i in range(n)]
     elif kind == 1:    # positions on a line (metric)
@@ -197,6 +231,19 @@ def gen_D(ctx, n):
         pts = [(int(r.randint(0, 4)), int(r.randint(0, 4))) for _ in range(n)]
         D = [[(a[0] - b[0]) ** 2 + (a[1] - b[1]) ** 2 for b in pts] for a in pts]
         return D, 'grid'
+    elif kind == 3:    # some rows entirely equal (every neighbour ties: the first index must win), zero distances off the diagonal
+        D = [[0 if i == j else int(r.randint(0, 4)) for j in range(n)] for i in range(n)]
+        for i in range(n):
+            if r.rand() < 0.4:
+                c = int(r.randint(0, 3))
+                D[i] = [c] * n
+        return D, 'equal-rows'
+    elif kind == 4:    # dyadic fractions (exact in binary64), near-ties
+        D = [[0 if i == j else F(int(r.randint(1, 9)), 8) for j in range(n)] for i in range(n)]
+        for i in range(n):
+            for j in range(i):
+                D[i][j] = D[j][i]
+        return D, 'dyadic'
     else:
         D = [[0 if i == j else int(r.randint(1, 7)) for j in range(n)] for i in range(n)]
     if r.rand() < 0.85:
@@ -205,6 +252,26 @@ def gen_D(ctx, n):
                 D[i][j] = D[j][i]
         return D, 'sym'
     return D, 'asym'
+
+
+def gen_L_variants(ctx, A, und):
+    """length matrices on the support of A beyond {0/1, {1,2,3}}: self-connections (a nonzero DIAGONAL: the back-step test
+    `next_node == last_node` can fire at the very first step, where last_node = curr_node), signed lengths (`L != 0`, not `> 0`),
+    dyadic fractions.  The support stays symmetric when A is."""
+    r = ctx.nprng
+    n = len(A)
+    out = []
+    Ls = [row[:] for row in H3.weighted(ctx, A, [1, 2, 3])]
+    for i in range(n):
+        if r.rand() < 0.5:
+            Ls[i][i] = int(r.randint(1, 4))
+    out.append(('selfloops', Ls))
+    Lg = [row[:] for row in H3.weighted(ctx, A, [-2, -1, 1, 2])]
+    if r.rand() < 0.5:
+        k = int(r.randint(n)); Lg[k][k] = -1
+    out.append(('signed', Lg))
+    out.append(('dyadic', H3.weighted(ctx, A, [F(1, 4), F(1, 2), F(3, 4), F(5, 2)])))
+    return out
 
 
 # ---------------------------------------------------------------- correspondence
@@ -224,8 +291,16 @@ def compare_models(ctx, B_):
             else:
                 ctx.count('retrieve:tie-order-differs(rounding)')
         elif kind == 'nav':
-            if m is None:
-                ctx.mismatch('model-fuel:nav', 'model ran out of fuel', case); ctx.count('fuel_exhausted'); continue
+            code, m = int(m[0]), m[1]
+            if code == 1:
+                ctx.mismatch('model-fuel:nav', 'model ran out of the PROVEN fuel (2n for max_hops=None on a symmetric support, max_hops+2 otherwise)', case)
+                ctx.count('fuel_exhausted'); continue
+            if code == 0 or impl == 'ZeroDivisionError':
+                if not (code == 0 and impl == 'ZeroDivisionError'):
+                    ctx.mismatch('navigation_wu', 'model outcome %s, implementation %s' % (('NavRaises', '', 'NavDone')[code], 'raised ZeroDivisionError' if impl == 'ZeroDivisionError' else 'returned'), case)
+                else:
+                    ctx.count('nav:model-raises-too')
+                continue
             sr, PLb, PLw, PLd, paths = impl
             n = PLb.shape[0]
             msr = dec_q(m[0])
@@ -293,10 +368,21 @@ def run(ctx):
                 ctx.count('nav:D-' + dk)
                 for mh in ((None, 1, 2, n) if und else (1, 2, n)):
                     do_nav(ctx, bct, Lw, D, mh, fam, B_)
+                # self-connections / signed / fractional lengths, max_hops = 0, further nodal-distance kinds
+                for lk, Lv in gen_L_variants(ctx, A, und):
+                    D2, dk2 = gen_D(ctx, n)
+                    ctx.count('nav:L-' + lk); ctx.count('nav:D-' + dk2)
+                    mhs = [0, int(r.randint(1, n + 2))] + ([None] if und else [])
+                    for mh in mhs:
+                        do_nav(ctx, bct, Lv, D2, mh, fam, B_)
     # ---- navigation: all undirected graphs n<=4 x two nodal distance matrices
     for n in range(2, ctx.scale(4, 5) + 1):
         for A in H3.all_graphs(n):
             for _ in range(ctx.scale(1, 2)):
                 D, dk = gen_D(ctx, n)
                 do_nav(ctx, bct, A, D, None if r.rand() < 0.7 else int(r.randint(1, n + 1)), 'exhaustive_und', B_)
+    # ---- n = 1: the success ratio divides by n**2 - n = 0 on Python ints (ZeroDivisionError; model outcome NavRaises)
+    for L1 in ([[0]], [[2]]):
+        for mh in (None, 0, 3):
+            do_nav(ctx, bct, L1, [[0]], mh, 'single-node', B_)
     compare_models(ctx, B_)
